@@ -66,7 +66,9 @@ def strategy(tier):
     cms = st.fixed_dictionaries({"t": st.just("cms"), "w": st.integers(1, 3), "d": st.integers(1, 3),
                                  "qt": st.sampled_from(["min", "min", "mean", "mean-min"]),
                                  "hash": gen.hash_name_st(["default", "md5", "coincide", "tiny", "ident"]),
-                                 "pool": gen.pool_st(2, 3), "ops": hist(CMS_AMTS, ["join"])})
+                                 "pool": gen.pool_st(2, 3), "ops": hist(CMS_AMTS, ["join"]),
+                                 # the tracking subclasses route add / remove through their own overrides: same clamping
+                                 "cmscls": st.sampled_from(["cms", "cms", "st", "hh"])})
     cb = st.fixed_dictionaries({"t": st.just("cb"), "est": st.integers(1, 5), "fpr": st.sampled_from([0.5, 0.3, 0.1, 0.05, 0.01]),
                                 "hash": gen.hash_name_st(["default", "md5", "coincide", "pairs", "tiny", "bylen", "ident"]),
                                 "pool": gen.pool_st(2, 3), "ops": hist(CB_AMTS, ["union", "intersection"])})
@@ -142,7 +144,16 @@ def _run_cms(case, ctx):
     pool = [dk(k) for k in case["pool"]]
     w, d = case["w"], case["d"]
     qt = case["qt"] if w >= 2 else ("min" if case["qt"] == "mean-min" else case["qt"])
-    o = CountMinSketch(width=w, depth=d, hash_function=hf)
+    cmscls = case.get("cmscls", "cms")
+    if cmscls == "st":
+        from probables import StreamThreshold
+        o = StreamThreshold(threshold=3, width=w, depth=d, hash_function=hf)
+    elif cmscls == "hh":
+        from probables import HeavyHitters
+        o = HeavyHitters(num_hitters=2, width=w, depth=d, hash_function=hf)
+    else:
+        o = CountMinSketch(width=w, depth=d, hash_function=hf)
+    ctx.feat("cms_class_" + cmscls)
     o.query_type = qt
     m = CmsModel(w, d, hf)
     nx = "C16.no_exception"
@@ -165,6 +176,8 @@ def _run_cms(case, ctx):
         if kind in ("add", "remove"):
             k = pool[op[1] % len(pool)]
             n = op[2]
+            if cmscls == "hh" and kind == "remove":
+                kind = "add"  # HeavyHitters does not support removal
             r = ctx.call(nx, o.add if kind == "add" else o.remove, k, n)
             vals = m.add(k, n if kind == "add" else -n)
             if qt == "min":
@@ -183,6 +196,10 @@ def _run_cms(case, ctx):
                 (s.add if sk == "add" else s.remove)(key, sn)
                 sm.add(key, sn if sk == "add" else -sn)
             sraw = bytes(s)
+            if cmscls != "cms":
+                ctx.op("join-skipped", op[1])  # join is not supported by the tracking subclasses
+                agree(f"after {op}")
+                continue
             ctx.call(nx, o.join, s)
             raw = bytes(o)
             cells = _cells_i32(raw, w * d)
